@@ -39,7 +39,15 @@ def run(op, a):
         return NONE if r is None else list(r)
     if op == 4:
         v, p = sa.decode(txt(a[0]), txt(a[1]))
-        return NONE if (v is None and p is None) else [v, list(p)]
+        r = NONE if (v is None and p is None) else [v, list(p)]
+        # what the caller does with the returned list is the caller's business: decoding again gives
+        # the same answer
+        if isinstance(p, list):
+            p.append(255)
+            p[:1] = []
+        v2, p2 = sa.decode(txt(a[0]), txt(a[1]))
+        r2 = NONE if (v2 is None and p2 is None) else [v2, list(p2)]
+        return r if r2 == r else [-99, []]
     if op == 5:
         r = sa.encode(txt(a[0]), a[1], a[2])
         return NONE if r is None else untxt(r)
